@@ -32,6 +32,7 @@ import numpy as np
 from vt import alg, extract, sx, npshim, symrun, eff
 from vt.alg import Ctx, X
 from vt.core import Ob, Verdict, Refuted, Unsupported, DISCHARGED, REFUTED
+from . import ops
 from . import common, fem, patches
 
 PROP = "C18"
@@ -1312,6 +1313,8 @@ def build(tier, seed):
     obs.append(Ob("canary.operator", ob_operator_canary, (), "B", expect=REFUTED))
     obs.append(Ob("C18.native.law.HolzapfelOgden.shapes", ob_fibre_shapes, (), "X", (f"{STATE}::HyperElasticState._Compute_Anisotropic_Invariants_First_Derivatives", f"{LAWS}::HolzapfelOgden"),
                   bound="one 8-element HEXA8 state", clause="a constant fibre direction next to a per-point field of directions: W, stress, tangent == both given as fields"))
+    obs += ops.hyper_obligations('C18', tier) + ops.hyper_lemma_obligations('C18', tier)
+    obs.append(ops.selfcheck_ob('C18'))
     return dict(
         obs=obs, level="other", min_obligations=60,
         explanation=("Invariants and kinematic operators: real HyperElasticState methods run on symbolic tensors and differentiated exactly. Laws: the extracted Compute_W / dWde / d2Wde run "
@@ -1319,7 +1322,7 @@ def build(tier, seed):
                      "gives stress = dW/dE, tangent = dS/dE, objectivity and the stress-free reference for every deformation. Operators: the real element operators run on exact rationals "
                      "along u0 + t d and their tangent is compared with the exact t-derivative of their residual (a polynomial identity; Saint-Venant-Kirchhoff so that the field is "
                      "rational); the one-step discrete energy balance is checked the same way. Native runs (bounded) repeat these with every law, the jax AutoDiff law and long free motions."),
-        trusted_base=["sympy simplification (a failed simplification is reported as a refutation only after two normal forms; none occurs on the current tree)", "numpy model (npshim), exact field arithmetic",
+        trusted_base=ops.GP_TRUST + ["sympy simplification (a failed simplification is reported as a refutation only after two normal forms; none occurs on the current tree)", "numpy model (npshim), exact field arithmetic",
                       "operator obligations are instances (one rational state per element type): bounded, not proofs", "jax (AutoDiff law) external"],
         assumptions=["Holzapfel-Ogden reference state needs orthogonal fibres", "energy conservation over many steps is checked natively (bounded); per step it follows from C18.energy.* and C05's midpoint identities",
                      "float literals (2**-1/2, Clenshaw-Curtis nodes) read as exact rationals: 2^-40 slack in operator identities"],
